@@ -10,7 +10,8 @@ TECHNIQUE = "property-based testing (Hypothesis): generated relations/ops vs ref
 LEVEL_TEXT = ("Random search over relation tables, scopes, assignments and operations with an exact reference oracle "
               "(table lookups and sums computed from the case description, never through pyDCOP). Thousands of cases "
               "per run cover dict/list forms, overlapping/disjoint/nested joins and projections in both modes, "
-              "including magnitudes beyond 2^31. It samples the input space; it does not prove the algebra.")
+              "including magnitudes beyond 2^31, tables stored as int8 / int32 "
+              "numpy arrays with values near the ends of the type and near-ties on a 10^10 offset. It samples the input space; it does not prove the algebra.")
 LEVEL_NOTE = ("Trusted: numpy, Hypothesis, the reference arithmetic in vf/oracles.py. Assumes |values| <= 1e15 and "
               "asserts the updated cell only when the new value is representable in the table dtype.")
 RULE = ("cases = 1-2 matrix relations over <=4 small-domain variables (tables of small ints, dyadic floats, "
